@@ -375,7 +375,7 @@ class Gen:
             self.link(rname, s + 1, sw, 8)
 
         cfgs = self._routed_subnets(k, attach)
-        pool = [self.inv["hosts"][c["hostname"]]["ip"] for c in cfgs] + [p["ip_address"] for p in ports.values()]
+        pool = [self.inv["hosts"][c["hostname"]]["ip"] for c in cfgs]
         acl = self.router_acl(pool)
         rcfg = {"type": "router", "hostname": rname, "num_ports": 5, "ports": ports, "acl": acl, "start_up_duration": self.pick_duration(), "shut_down_duration": self.pick_duration()}
         self.nodes.insert(0, rcfg)
@@ -791,7 +791,8 @@ class Gen:
             agents.append(self.green_agent(f"green_{i}"))
         for i in range(r.randint(*self.p["n_red"])):
             agents.append(self.red_agent(f"red_{i}"))
-        agents.append(self.blue_agent("defender"))
+        if not self.p.get("no_blue"):
+            agents.append(self.blue_agent("defender"))
         # reward sharing: acyclic by construction (edges only from earlier to later in a random order)
         if len(agents) >= 2 and self.chance(self.p["reward_sharing"]):
             order = [a["ref"] for a in agents]
